@@ -157,9 +157,10 @@ def run(ctx):
     slow = ("4@8({[<369&#!1/|0$5+7%2/" * 6)[:108]
     steps = []
     for i, (op, u, p) in enumerate((("update", "u2", "p5"), ("add", "u3", "p2"), ("add", "u3", "p3"), ("add", "u3", "p1"), ("update", "u3", "p2"),
-                                    ("update", "u2", "p5"), ("update", "u3", "p3"), ("update", "u3", "p1"), ("update", "u1", "p2"))):
+                                    ("update", "u3", "p3"), ("update", "u3", "p1"), ("update", "u1", "p2"))):
         steps.append({"t": "send", "c": "v%d" % i, "k": op, "u": u, "p": p, "a": False, "via": "api"})
-        steps.append({"t": "sleep", "n": 5})
+        # (the slow evaluation gets its time before the next request is made: the run must not depend on the machine's load)
+        steps.append({"t": "sleep", "n": 9000 if p == "p5" else 5})
     steps.append({"t": "free"})
     sl = scen("writes-after-slow-evaluation", "score >= 3", steps, files)
     sl["passwords"] = dict(PWS, p5=slow)
